@@ -8,14 +8,21 @@ import (
 	"strconv"
 	"strings"
 
+	"net/http"
+
+	flvfmt "github.com/cnotch/ipchub/av/format/flv"
 	"github.com/cnotch/ipchub/av/format/rtp"
 	"github.com/cnotch/ipchub/config"
 	"github.com/cnotch/ipchub/media"
+	"github.com/cnotch/ipchub/network/websocket"
+	flvsvc "github.com/cnotch/ipchub/service/flv"
 	"github.com/cnotch/ipchub/service/wsp"
 	"github.com/cnotch/ipchub/stats"
+	"github.com/cnotch/xlog"
 
 	"ipchubverif/hs"
 	"ipchubverif/hx"
+	"ipchubverif/oracle/flvparse"
 	"ipchubverif/oracle/rtppack"
 	"ipchubverif/oracle/rtspwire"
 	"ipchubverif/runner"
@@ -53,9 +60,33 @@ type player struct {
 	mcGroup   string
 	got       []rec
 	handshake string
+	// FLV players (HTTP-FLV, WebSocket-FLV): what the client receives is compared with what a
+	// plain FLV consumer of the media layer, attached and detached at the same instants, receives
+	httpW  *flvResponse
+	flvWS  *vnet.MsgSocket
+	ref    *hx.Rec
+	refCid media.CID
 }
 
-var kinds = []string{"tcp", "udp", "mc1", "mc2", "ws", "wsp"}
+var kinds = []string{"tcp", "udp", "mc1", "mc2", "ws", "wsp", "hflv", "wflv"}
+
+// flvResponse is the http.ResponseWriter of an HTTP-FLV client; gone = the client disconnected.
+type flvResponse struct {
+	hdr  http.Header
+	code int
+	buf  bytes.Buffer
+	gone bool
+}
+
+func (w *flvResponse) Header() http.Header { return w.hdr }
+func (w *flvResponse) WriteHeader(c int)   { w.code = c }
+func (w *flvResponse) Write(b []byte) (int, error) {
+	vrt.Yield("http.Write")
+	if w.gone {
+		return 0, fmt.Errorf("write tcp: broken pipe")
+	}
+	return w.buf.Write(b)
+}
 
 const (
 	pushURL = "rtsp://h/live/p"
@@ -124,6 +155,22 @@ func (p *player) attach(x *vrt.Exec) {
 		}
 		_, it = p.ws.Do("PLAY", pushURL, nil, "")
 		add(it)
+	case "hflv", "wflv":
+		stream := media.Get("/live/p")
+		p.ref = &hx.Rec{Name: "ref-" + p.kind}
+		p.refCid = stream.StartConsume(p.ref, media.FLVPacket, "reference")
+		if p.kind == "hflv" {
+			p.httpW = &flvResponse{hdr: http.Header{}}
+			w := p.httpW
+			vrt.GoNamed("http-flv-handler", func() { flvsvc.ConsumeByHTTP(xlog.L(), "/live/p", "client", w) })
+		} else {
+			p.flvWS = vnet.NewMsgSocket("wflv", "")
+			conn := websocket.VerifNewConn(p.flvWS, "/live/p", "")
+			vrt.GoNamed("ws-flv-handler", func() { flvsvc.ConsumeByWebsocket(xlog.L(), "/live/p", "client", conn) })
+		}
+		vrt.WhenIdle()
+		p.attached = true
+		return
 	case "wsp":
 		p.wspSrv = wsp.VerifNewServer()
 		p.wsp = hs.NewWSP(p.wspSrv, "wsp", "/live/p", "")
@@ -150,6 +197,9 @@ func (p *player) attach(x *vrt.Exec) {
 
 func (p *player) detach() {
 	switch p.kind {
+	case "hflv", "wflv":
+		p.drop()
+		return
 	case "tcp", "udp", "mc1", "mc2":
 		p.tcp.Do("TEARDOWN", pushURL, nil, "")
 	case "ws":
@@ -159,6 +209,69 @@ func (p *player) detach() {
 	}
 	vrt.WhenIdle()
 	p.attached, p.done = false, true
+}
+
+// drop ends a player by disconnecting it (the only way an FLV client can leave).
+func (p *player) drop() {
+	switch {
+	case p.httpW != nil:
+		p.httpW.gone = true // the handler notices at its next write
+	case p.flvWS != nil:
+		p.flvWS.ClientClose()
+	case p.tcp != nil:
+		p.tcp.Conn.Close()
+	case p.ws != nil:
+		p.ws.Sock.ClientClose()
+	case p.wsp != nil:
+		p.wsp.Ctl.ClientClose()
+		p.wsp.Data.ClientClose()
+	}
+	if p.ref != nil {
+		if s := media.Get("/live/p"); s != nil {
+			s.StopConsume(p.refCid)
+		}
+	}
+	vrt.WhenIdle()
+	p.attached, p.done = false, true
+}
+
+// flvCompare checks an FLV client's byte stream against the reference consumer's tags.
+func (p *player) flvCompare(x *vrt.Exec, history string) int {
+	var raw []byte
+	if p.httpW != nil {
+		raw = p.httpW.buf.Bytes()
+	} else {
+		for _, m := range p.flvWS.Take() {
+			raw = append(raw, m.Data...)
+		}
+		p.got = append(p.got, rec{0, raw}) // keep across calls
+		raw = nil
+		for _, r := range p.got {
+			raw = append(raw, r.data...)
+		}
+	}
+	f, err := flvparse.Parse(raw)
+	if err != nil {
+		x.Failf("adapters flv-stream-malformed "+p.kind, "history [%s]: %v", history, err)
+		return 0
+	}
+	want := p.ref.Got
+	ok := len(f.Tags) == len(want)
+	for i := 0; ok && i < len(want); i++ {
+		t := want[i].(*flvfmt.Tag)
+		ok = f.Tags[i].Type == t.TagType && bytes.Equal(f.Tags[i].Data, t.Data)
+	}
+	if !ok {
+		var a, b []string
+		for _, t := range f.Tags {
+			a = append(a, fmt.Sprintf("%d:%d", t.Type, len(t.Data)))
+		}
+		for _, t := range want {
+			b = append(b, fmt.Sprintf("%d:%d", t.(*flvfmt.Tag).TagType, len(t.(*flvfmt.Tag).Data)))
+		}
+		x.Failf("adapters flv-reception-differs "+p.kind, "history [%s]: %s client received tags (type:size) %v, a plain FLV consumer attached over the same interval received %v", history, p.kind, a, b)
+	}
+	return len(f.Tags)
 }
 
 // collect gathers what the player has received so far.
@@ -255,6 +368,7 @@ func adapterBody(steps int, abrupt bool) func(x *vrt.Exec) {
 		}
 		var published []rec
 		var trail []string
+		nVideo := 0
 		vrt.Quiet(false)
 		for step := 0; step < steps; step++ {
 			var ops []string
@@ -277,8 +391,15 @@ func adapterBody(steps int, abrupt bool) func(x *vrt.Exec) {
 				i := len(published)
 				ch := chans[i%len(chans)]
 				var data []byte
-				if ch%2 == 0 {
-					data = hx.Pkt(ch, 96, true, uint16(i), uint32(3000*i), rtppack.H264Single(hx.NAL(2, 1, 6+i, byte(i)))).Data
+				if ch == 0 {
+					typ := byte(1)
+					if nVideo%3 == 0 {
+						typ = 5 // every third picture is a key picture
+					}
+					nVideo++
+					data = hx.Pkt(ch, 96, true, uint16(i), uint32(3000*i), rtppack.H264Single(hx.NAL(3, typ, 6+i, byte(i)))).Data
+				} else if ch == 2 {
+					data = hx.Pkt(ch, 97, true, uint16(i), uint32(1024*i), rtppack.AACHbr([][]byte{bytes.Repeat([]byte{byte(0x21 + i)}, 9+i)})).Data
 				} else {
 					data = append([]byte{0x80, 200, 0, 6}, bytes.Repeat([]byte{byte(0x10 + i)}, 24)...) // RTCP sender report shaped
 				}
@@ -293,17 +414,7 @@ func adapterBody(steps int, abrupt bool) func(x *vrt.Exec) {
 			default:
 				p := players[op[7:]]
 				if abrupt {
-					switch {
-					case p.tcp != nil:
-						p.tcp.Conn.Close()
-					case p.ws != nil:
-						p.ws.Sock.ClientClose()
-					default:
-						p.wsp.Ctl.ClientClose()
-						p.wsp.Data.ClientClose()
-					}
-					vrt.WhenIdle()
-					p.attached, p.done = false, true
+					p.drop()
 				} else {
 					p.detach()
 				}
@@ -323,6 +434,10 @@ func adapterBody(steps int, abrupt bool) func(x *vrt.Exec) {
 			}
 			if p.attached {
 				p.to = len(published)
+			}
+			if p.ref != nil {
+				obs = append(obs, fmt.Sprintf("%s=%d", k, p.flvCompare(x, history)))
+				continue
 			}
 			p.collect(x, dgs)
 			want := published[p.from:p.to]
@@ -363,6 +478,8 @@ func adapterBody(steps int, abrupt bool) func(x *vrt.Exec) {
 			case p.wsp != nil:
 				p.wsp.Ctl.ClientClose()
 				p.wsp.Data.ClientClose()
+			case p.flvWS != nil:
+				p.flvWS.ClientClose()
 			}
 		}
 		vrt.WhenIdle()
